@@ -4,6 +4,7 @@ package load
 import (
 	"fmt"
 	"go/ast"
+	"go/parser"
 	"go/token"
 	"go/types"
 	"os"
@@ -116,7 +117,56 @@ func Load(repo string) (*Program, error) {
 
 // MoqPackages returns the four generator packages in a fixed order.
 func (p *Program) MoqPackages() []*packages.Package {
-	return []*packages.Package{p.Moq[PkgMain], p.Moq[PkgMoq], p.Moq[PkgRegistry], p.Moq[PkgTemplate]}
+	var out []*packages.Package
+	for _, k := range []string{PkgMain, PkgMoq, PkgRegistry, PkgTemplate} {
+		if pk := p.Moq[k]; pk != nil {
+			out = append(out, pk)
+		}
+	}
+	return out
+}
+
+type progImporter struct{ p *Program }
+
+func (pi progImporter) Import(path string) (*types.Package, error) {
+	if pk := pi.p.ByPath[path]; pk != nil && pk.Types != nil {
+		return pk.Types, nil
+	}
+	return nil, fmt.Errorf("fixture imports %q, which the analysed program does not load", path)
+}
+
+// Fixture type-checks a single-file package main against the packages the
+// program has loaded and wraps it as a Program whose only generator package
+// is that file (for positive controls of the generator-side rules).
+func Fixture(p *Program, src string) (*Program, error) {
+	fset := token.NewFileSet()
+	f, err := parser.ParseFile(fset, "/fixture/fixture.go", src, parser.ParseComments)
+	if err != nil {
+		return nil, err
+	}
+	info := &types.Info{Types: map[ast.Expr]types.TypeAndValue{}, Defs: map[*ast.Ident]types.Object{}, Uses: map[*ast.Ident]types.Object{},
+		Selections: map[*ast.SelectorExpr]*types.Selection{}, Implicits: map[ast.Node]types.Object{}, Scopes: map[ast.Node]*types.Scope{}, Instances: map[*ast.Ident]types.Instance{}}
+	conf := types.Config{Importer: progImporter{p}}
+	tp, err := conf.Check(PkgMain, fset, []*ast.File{f}, info)
+	if err != nil {
+		return nil, err
+	}
+	pk := &packages.Package{ID: PkgMain, Name: "main", PkgPath: PkgMain, Syntax: []*ast.File{f}, Types: tp, TypesInfo: info, Fset: fset}
+	fp := &Program{Repo: "/fixture", Fset: fset, Moq: map[string]*packages.Package{PkgMain: pk}, ByPath: map[string]*packages.Package{PkgMain: pk},
+		decls: map[*types.Func]*ast.FuncDecl{}, infoOf: map[*types.Package]*types.Info{tp: info}}
+	for path, dep := range p.ByPath {
+		if _, ok := fp.ByPath[path]; !ok {
+			fp.ByPath[path] = dep
+		}
+	}
+	for _, d := range f.Decls {
+		if fd, ok := d.(*ast.FuncDecl); ok {
+			if fn, ok := info.Defs[fd.Name].(*types.Func); ok {
+				fp.decls[fn] = fd
+			}
+		}
+	}
+	return fp, nil
 }
 
 // IsMoqPkg reports whether pkg is one of the four generator packages.
@@ -184,4 +234,15 @@ func FuncName(fn *types.Func) string {
 		}
 	}
 	return fn.Name()
+}
+
+// Roots returns the packages of the repository itself (for SSA construction).
+func (p *Program) Roots() []*packages.Package {
+	var out []*packages.Package
+	for _, pk := range p.All {
+		if strings.HasPrefix(pk.PkgPath, ModulePath) {
+			out = append(out, pk)
+		}
+	}
+	return out
 }
